@@ -373,7 +373,10 @@ Section Phases.
       destruct (bm_get inst (c_srv (s_cache s))); [|constructor; [apply ok_query|constructor]].
       match goal with |- context [find ?f ?l] => destruct (find f l) end;
         [constructor; [apply ok_query|constructor]|constructor]. }
-    destruct (query_unresolved (s_cache s) inst) as [sent o]. simpl in Hq.
+    assert (Hq2 : OK (snd (if has_ptr_to (s_cache s) inst then query_unresolved (s_cache s) inst else (false, []))))
+      by (destruct (has_ptr_to (s_cache s) inst); [exact Hq|constructor]).
+    clear Hq. rename Hq2 into Hq.
+    destruct (if has_ptr_to (s_cache s) inst then query_unresolved (s_cache s) inst else (false, [])) as [sent o]. simpl in Hq.
     destruct (sent && retry_guard n max_try); simpl; split; assumption.
   Qed.
 
